@@ -16,7 +16,7 @@ import (
 func init() {
 	register(&Prop{
 		ID: "C14", Level: "fault_enumeration",
-		Rule: "one case = a generated history of 1-7 calls on the Context's ResponseWriter from {WriteHeader (final, informational 1xx, 101, repeated), Write, WriteString, ReadFrom, FlushError, Push, SetReadDeadline, SetWriteDeadline, EnableFullDuplex, Hijack, Context.String/Blob/Stream/Redirect} executed by a real route handler behind ServeHTTP (the request carries a drawn Content-Type of its own or none) over a simulated connection whose capability set is drawn from {ReaderFrom, Flusher|FlushError, Hijacker+Pusher+deadlines+full duplex}; for each history the byte position at which the connection starts failing is enumerated over every byte boundary (and no failure), and the failure position of the ReadFrom/Stream source likewise; after every call Status/Size/Written are compared with the connection's own log (first final status received, bytes accepted, final header or byte received), return values with the bytes accepted during the call, and the whole run is repeated with ReaderFrom toggled (answers must not depend on the fast path). Connection invariants: at most one final header, none after body bytes, bytes in order. Non-trivial: the history wrote body bytes and at least one enumerated fault fired inside it; distinct = hash of (history, capabilities).",
+		Rule: "one case = a generated history of 1-7 calls on the Context's ResponseWriter from {WriteHeader (final, informational 1xx, 101, repeated), Write, WriteString, ReadFrom, FlushError, Push, SetReadDeadline, SetWriteDeadline, EnableFullDuplex, Hijack, Context.String/Blob/Stream/Redirect} executed by a real route handler behind ServeHTTP (the request carries a drawn Content-Type of its own or none) over a simulated connection whose capability set is drawn from {ReaderFrom, Flusher|FlushError, Hijacker+Pusher+deadlines+full duplex}; for each history the byte position at which the connection starts failing is enumerated over every byte boundary (and no failure), and the failure position of the ReadFrom/Stream source likewise; after every call Status/Size/Written are compared with the connection's own log (first final status received, bytes accepted, final header or byte received), return values with the bytes accepted during the call, and the whole run is repeated with ReaderFrom toggled (answers must not depend on the fast path); after every history a plain request is served from the recycled context and must start clean and reach the connection (201, two bytes). Connection invariants: at most one final header, none after body bytes, bytes in order. Non-trivial: the history wrote body bytes and at least one enumerated fault fired inside it; distinct = hash of (history, capabilities).",
 		Run:  runC14, Quick: 12000, Thorough: 2000000,
 		Real:   []string{"recorder ResponseWriter (response_writer.go)", "Context helpers String/Blob/Stream/Redirect", "ServeHTTP dispatch and context pooling"},
 		Stub:   []string{"net/http connection: simulated connection with injected short writes and errors", "io.Reader sources with injected failures"},
@@ -279,6 +279,31 @@ func runWHistory(w *world.World, steps []wStep, caps world.Caps, reqCT string, c
 	}
 	if connFail >= 0 && len(conn.Body) >= connFail {
 		*fired++
+	}
+	if fail == "" {
+		// the recorder is embedded in the pooled context: the next request served from it starts clean whatever this
+		// history did to it (hijacked, failed, written twice)
+		conn2 := world.NewConn()
+		var after string
+		log2 := &world.ReqLog{Inner: func(c fox.Context, _ *world.Hit) {
+			wr := c.Writer()
+			if wr.Status() != 200 || wr.Size() != 0 || wr.Written() {
+				after = fmt.Sprintf("the next request starts with Status=%d Size=%d Written=%v", wr.Status(), wr.Size(), wr.Written())
+				return
+			}
+			wr.WriteHeader(201)
+			n, err := wr.Write([]byte("ok"))
+			if n != 2 || err != nil || wr.Status() != 201 || wr.Size() != 2 || !wr.Written() {
+				after = fmt.Sprintf("the next request's WriteHeader(201)+Write(\"ok\") returned (%d, %v) and reports Status=%d Size=%d Written=%v", n, err, wr.Status(), wr.Size(), wr.Written())
+			}
+		}}
+		w.R.ServeHTTP(conn2.Wrap(caps), world.NewRequest("GET", "", "/w", "", "", log2))
+		if after == "" && (conn2.Explicit != 201 || string(conn2.Body) != "ok") {
+			after = fmt.Sprintf("the next request's response reached the connection as status %d body %q", conn2.Explicit, conn2.Body)
+		}
+		if after != "" {
+			fail = "after this history, on the recycled context: " + after
+		}
 	}
 	return triples, fail
 }
